@@ -65,7 +65,8 @@ TypesExec == [
   Sz |-> [kind |-> "ENUM", possible |-> {}, possibleSeq |-> <<>>, values |-> <<"LARGE", "XLARGE", "XXLARGE", "XLARGER">>, way |-> "", fields |-> NoFields],
   Mutation |-> [kind |-> "OBJECT", possible |-> {"Mutation"}, possibleSeq |-> <<"Mutation">>, values |-> <<>>, way |-> "key",
     fields |-> [ m1 |-> Rs(Nm("T")), m2 |-> Rs(Nn(Nm("T"))), m3 |-> Rs(Nm("String")), m4 |-> Rs(Nn(Nm("String"))), ml |-> Rs(Li(Nm("T"))),
-                 mg |-> RsA(Nm("String"), GArgs), mgn |-> RsA(Nn(Nm("String")), GArgs), mcs |-> Rs(Nn(Nm("Cs"))) ]],
+                 mg |-> RsA(Nm("String"), GArgs), mgn |-> RsA(Nn(Nm("String")), GArgs), mcs |-> Rs(Nn(Nm("Cs"))),
+                 mln |-> Rs(Nn(Li(Nn(Nm("T"))))) ]],
   Subscription |-> [kind |-> "OBJECT", possible |-> {"Subscription"}, possibleSeq |-> <<"Subscription">>, values |-> <<>>, way |-> "key",
     fields |-> [ ev |-> RsA(Nm("T"), FArgs), evs |-> Rs(Nm("String")), evn |-> Rs(Nn(Nm("T"))) ]],
   In |-> [kind |-> "INPUT", fields |-> NoFields, possible |-> {}, possibleSeq |-> <<>>, values |-> <<>>, way |-> "", inputs |-> InFields],
